@@ -9,6 +9,7 @@ from sa import model
 from sa import universe as unimod
 from sa.model import AnalysisError
 from sa.rules import c09
+from sa.rules import c17
 from sa.rules.c17 import tri, reachable_with
 
 TITLE = 'scope discipline: fresh child per call, lexical lambdas'
@@ -297,4 +298,15 @@ def run(repo, rep):
     check_r04b(repo, rep)
     check_r04c(repo, rep)
     n = check_r04d(repo, rep)
+    # R04e: bindings shadow, missing is null, `$` is `$1` -- the context
+    # classes' clauses (decided by C17's rules, repeated here because the
+    # statement of C04 names them)
+    cm = repo.module(c17.CTX)
+    rep.rule('R17a', 'see C17: key normalisation (`$` = `$1` = empty name)')
+    rep.rule('R17c', 'see C17: lookup walks outward, missing is null')
+    rep.rule('R17e', 'see C17: every assignment stores into the own layer '
+             'on every path (a binding always shadows)')
+    c17.check_normalise(repo, rep, cm)
+    c17.check_get_data(repo, rep, cm)
+    c17.check_store_on_all_paths(repo, rep, cm)
     rep.count(context_store_sites=n)
